@@ -35,6 +35,9 @@ package nsqd
 //@   requires t != nil
 //@   ensures[flag] result == (t.paused == 1)
 //@   modifies
+//   the observation, for the pause-guard of Topic.messagePump (ghosts in zz_contracts_ltopic_verif.go)
+//@   onreturn lTPauseFor := t
+//@   onreturn lTPauseObs := result
 
 // The latency aggregate walks the channels' quantile streams only (internal/quantile is outside this
 // area): assumed not to touch any counter or queue of the topic or its channels.
@@ -73,7 +76,7 @@ package nsqd
 //@   ensures[paused] result.Paused == (old(t.paused) == 1)
 //@   ensures[non-negative] result.MessageCount >= 0 && result.MessageBytes >= 0
 //@   ensures[counters-untouched] t.messageCount == old(t.messageCount) && t.messageBytes == old(t.messageBytes)
-//@   modifies t.channelMap, mapstore(map[string]*Channel), lastBackendDepth, lastBackendDepthQueue, lastTopicDepth
+//@   modifies t.channelMap, mapstore(map[string]*Channel), lastBackendDepth, lastBackendDepthQueue, lastTopicDepth, lTPauseFor, lTPauseObs
 
 // Per-consumer numbers: each reported counter is the client's own counter of that name.
 //@ func (c *clientV2) Stats(topicName string) ClientStats
